@@ -16,7 +16,7 @@ type nwCfg struct{ timeout, ooo, late int64 }
 
 func newSession(c nwCfg) (stepWin, error) {
 	cfg := types.WindowConfig{
-		Type: "session", Params: []any{time.Duration(c.timeout)}, TsProp: "ts", TimeUnit: time.Nanosecond,
+		Type: "session", Params: []any{time.Duration(c.timeout)}, TsProp: "ts", TimeUnit: time.Duration(tsCarrier.unit),
 		MaxOutOfOrderness: time.Duration(c.ooo), AllowedLateness: time.Duration(c.late),
 		TimeCharacteristic: types.EventTime, GroupByKeys: []string{"k"},
 	}
@@ -209,11 +209,23 @@ func runC10(tier string, seed uint64, o *Out) error {
 		c.ooo = []int64{0, c.timeout / 2, 3 * c.timeout}[rng.Intn(3)]
 		c.late = []int64{0, 0, c.timeout, 5 * c.timeout}[rng.Intn(4)] // late rows absorbed by a fired session of their key
 		n := 5 + rng.Intn(36)
-		ops := genSessionOps(rng, c, n, 1+rng.Intn(3), rng.Intn(5) == 0)
+		unit, farOK := pickTsCarrier(rng)
+		if c.timeout >= int64(time.Second) { // keep scaled timestamps far from the int64 limit
+			unit, farOK = 1, true
+			resetTsCarrier()
+		}
+		ops := genSessionOps(rng, c, n, 1+rng.Intn(3), farOK && rng.Intn(5) == 0)
 		if i%25 == 3 {
 			ops = overflowThenQuiet(rng, c.timeout, []string{"1", "2", "3"})
 		}
-		if err := sessionLine(o, "C10", c, ops, fmt.Sprintf("timeout=%d", c.timeout)); err != nil {
+		scaleOps(ops, unit)
+		tag := fmt.Sprintf("timeout=%d", c.timeout)
+		if tsCarrier.kind != 0 || unit != 1 {
+			tag = fmt.Sprintf("timestamp carried as kind %d unit %d", tsCarrier.kind, unit)
+		}
+		err := sessionLine(o, "C10", nwCfg{c.timeout * unit, c.ooo * unit, c.late * unit}, ops, tag)
+		resetTsCarrier()
+		if err != nil {
 			return err
 		}
 	}
